@@ -454,3 +454,332 @@ pub fn token_kinds(code: &str) -> Result<Vec<(String, String)>, String> {
         Err(e) => Err(e.to_string()),
     }
 }
+
+/// C15: the static type the checker attached to a checked statement, as panic-free text
+/// (expression statement: its type; `let` / `unit` definitions: the type of the defined name;
+/// `fn`: the function type). None for statements that carry no type.
+pub fn statement_type_text(stmt: &crate::Statement) -> Option<String> {
+    use crate::typed_ast::{DefineVariable, Statement};
+    match stmt {
+        Statement::Expression(e) => Some(type_text(&e.get_type_scheme().to_concrete_type())),
+        Statement::DefineVariable(DefineVariable { type_scheme, .. }) => {
+            Some(type_text(&type_scheme.to_concrete_type()))
+        }
+        Statement::DefineFunction { fn_type, .. } => Some(type_text(&fn_type.to_concrete_type())),
+        Statement::DefineBaseUnit { type_scheme, .. }
+        | Statement::DefineDerivedUnit { type_scheme, .. } => {
+            Some(type_text(&type_scheme.to_concrete_type()))
+        }
+        _ => None,
+    }
+}
+
+// ---------------------------------------------------------------------------------------------
+// C09: decoded bytecode (`vm_program`) and an opcode trace sink (`start_vm_trace`/`take_vm_trace`,
+// fed by one guarded call in `Vm::run_without_cleanup`). Plain data only.
+
+/// Bounded, plain-data summary of a run-time value.
+#[derive(Debug, Clone, PartialEq)]
+pub enum VmValSummary {
+    /// a unit-less quantity with an integral magnitude below 1e9
+    Int(i64),
+    /// any other quantity (display text)
+    Quantity(String),
+    Bool(bool),
+    Str(String),
+    /// a string of more than `VM_SUMMARY_MAX_STR` UTF-16 units: only its length
+    StrBig(usize),
+    DateTime(String),
+    /// function reference: kind ("normal" | "foreign" | "tz") and name
+    Fn(&'static str, String),
+    FormatSpecifiers(Option<String>),
+    List(Vec<VmValSummary>),
+    /// a list of more than `VM_SUMMARY_MAX_ELEMS` elements: only its length
+    ListBig(usize),
+    /// struct name, (field name, value) in the order the VM stores them
+    Struct(String, Vec<(String, VmValSummary)>),
+    StructBig(String, usize),
+}
+
+pub const VM_SUMMARY_MAX_ELEMS: usize = 6;
+pub const VM_SUMMARY_MAX_STR: usize = 80;
+
+pub fn vm_value_summary(v: &Value) -> VmValSummary {
+    match v {
+        Value::Quantity(q) => {
+            let x = q.unsafe_value().to_f64();
+            if q.unit().iter().next().is_none() && x.fract() == 0.0 && x.abs() < 1e9 {
+                VmValSummary::Int(x as i64)
+            } else {
+                VmValSummary::Quantity(q.to_string())
+            }
+        }
+        Value::Boolean(b) => VmValSummary::Bool(*b),
+        Value::String(s) => {
+            let n = s.encode_utf16().count();
+            if n > VM_SUMMARY_MAX_STR {
+                VmValSummary::StrBig(n)
+            } else {
+                VmValSummary::Str(s.to_string())
+            }
+        }
+        Value::DateTime(dt) => VmValSummary::DateTime(dt.to_string()),
+        Value::FunctionReference(r) => match r {
+            crate::value::FunctionReference::Normal(n) => VmValSummary::Fn("normal", n.to_string()),
+            crate::value::FunctionReference::Foreign(n) => VmValSummary::Fn("foreign", n.to_string()),
+            crate::value::FunctionReference::TzConversion(n) => VmValSummary::Fn("tz", n.to_string()),
+        },
+        Value::FormatSpecifiers(s) => VmValSummary::FormatSpecifiers(s.as_ref().map(|s| s.to_string())),
+        Value::List(l) => {
+            if l.len() > VM_SUMMARY_MAX_ELEMS {
+                VmValSummary::ListBig(l.len())
+            } else {
+                VmValSummary::List(l.iter().map(vm_value_summary).collect())
+            }
+        }
+        Value::StructInstance(info, fields) => {
+            if fields.len() > VM_SUMMARY_MAX_ELEMS {
+                VmValSummary::StructBig(info.name.to_string(), fields.len())
+            } else {
+                VmValSummary::Struct(
+                    info.name.to_string(),
+                    info.fields
+                        .keys()
+                        .zip(fields.iter())
+                        .map(|(n, v)| (n.to_string(), vm_value_summary(v)))
+                        .collect(),
+                )
+            }
+        }
+    }
+}
+
+#[derive(Debug, Clone)]
+pub struct VmInstr {
+    pub offset: usize,
+    pub op: &'static str,
+    pub operands: Vec<u16>,
+}
+
+#[derive(Debug, Clone)]
+pub struct VmChunk {
+    pub name: String,
+    pub code: Vec<VmInstr>,
+    pub byte_len: usize,
+}
+
+#[derive(Debug, Clone)]
+pub struct VmConstant {
+    /// "scalar" | "unit" | "boolean" | "string" | "function" | "format"
+    pub kind: &'static str,
+    /// the constant rendered as text (as the disassembler prints it)
+    pub text: String,
+    /// summary of the value `LoadConstant` pushes
+    pub value: VmValSummary,
+}
+
+/// Decoded state of the VM's program store (after compilation; the VM is not running).
+#[derive(Debug, Clone)]
+pub struct VmProgram {
+    pub chunks: Vec<VmChunk>,
+    pub constants: Vec<VmConstant>,
+    /// struct name and field names in declared order, by struct-info index
+    pub structs: Vec<(String, Vec<String>)>,
+    /// names of the registered foreign callables, by index
+    pub ffi_callables: Vec<String>,
+    pub num_ffi_call_args: usize,
+    pub num_prefixes: usize,
+    pub stack_len: usize,
+    pub frames_len: usize,
+    /// instruction pointer of the root frame
+    pub root_ip: usize,
+    /// number of global bindings the compiler knows
+    pub num_globals: usize,
+    /// summary of the stored last result
+    pub last_result: Option<VmValSummary>,
+    /// summaries of the stack slots from index `from` on (see `vm_program_with_stack`)
+    pub stack_from: usize,
+    pub stack: Vec<VmValSummary>,
+}
+
+/// Decoded bytecode of every chunk, constants table etc. of the session's VM.
+pub fn vm_program(ctx: &Context) -> VmProgram {
+    vm_program_with_stack(ctx, usize::MAX)
+}
+
+/// Same, with summaries of the stack slots `from..`.
+pub fn vm_program_with_stack(ctx: &Context, from: usize) -> VmProgram {
+    let mut p = ctx.interpreter.verif_vm().verif_program(from);
+    p.num_globals = ctx.interpreter.verif_num_globals();
+    p
+}
+
+/// Names of all opcodes (as the disassembler prints them), in discriminant order.
+pub fn vm_op_names() -> Vec<&'static str> {
+    crate::vm::Vm::verif_op_names()
+}
+
+/// One record per executed opcode: the state BEFORE the opcode executes.
+#[derive(Debug, Clone)]
+pub struct VmTraceRec {
+    /// index of the chunk (function) of the current frame
+    pub chunk: usize,
+    /// offset of the opcode byte in that chunk
+    pub ip: usize,
+    pub op: &'static str,
+    pub stack_depth: usize,
+    pub frame_depth: usize,
+    /// frame pointer of the current frame
+    pub fp: usize,
+    /// summary of the top of the stack (None: empty stack)
+    pub top: Option<VmValSummary>,
+}
+
+struct VmTraceSink {
+    recs: Vec<VmTraceRec>,
+    limit: usize,
+    dropped: usize,
+}
+
+thread_local! {
+    static VM_TRACE: std::cell::RefCell<Option<VmTraceSink>> = const { std::cell::RefCell::new(None) };
+}
+
+/// Start recording executed opcodes on this thread (at most `limit` records; later ones are counted only).
+pub fn start_vm_trace(limit: usize) {
+    VM_TRACE.with(|t| {
+        *t.borrow_mut() = Some(VmTraceSink {
+            recs: vec![],
+            limit,
+            dropped: 0,
+        })
+    });
+}
+
+/// Stop recording; returns the records and the number of records dropped because of the limit.
+pub fn take_vm_trace() -> (Vec<VmTraceRec>, usize) {
+    VM_TRACE.with(|t| match t.borrow_mut().take() {
+        Some(s) => (s.recs, s.dropped),
+        None => (vec![], 0),
+    })
+}
+
+/// Called by the VM once per executed opcode, right after the opcode byte has been read.
+pub(crate) fn trace_op(
+    chunk: usize,
+    ip: usize,
+    op: &'static str,
+    stack_depth: usize,
+    frame_depth: usize,
+    fp: usize,
+    top: Option<&Value>,
+) {
+    VM_TRACE.with(|t| {
+        if let Some(sink) = t.borrow_mut().as_mut() {
+            if sink.recs.len() >= sink.limit {
+                sink.dropped += 1;
+            } else {
+                sink.recs.push(VmTraceRec {
+                    chunk,
+                    ip,
+                    op,
+                    stack_depth,
+                    frame_depth,
+                    fp,
+                    top: top.map(vm_value_summary),
+                });
+            }
+        }
+    });
+}
+
+/// C15: canonical text of a type scheme: quantified variables are written `?i` (a dimension type that
+/// consists of exactly one variable to the power 1 is written like the variable itself), followed by the
+/// `Dim` bounds on variables. Two schemes with the same text accept the same arguments.
+pub fn scheme_text(scheme: &crate::typechecker::type_scheme::TypeScheme) -> String {
+    use crate::typechecker::qualified_type::Bound;
+    use crate::typechecker::type_scheme::TypeScheme;
+    use crate::typed_ast::DTypeFactor;
+    use crate::type_variable::TypeVariable;
+    fn tv(v: &TypeVariable) -> String {
+        match v {
+            TypeVariable::Named(n) => format!("'{n}"),
+            TypeVariable::Quantified(i) => format!("?{i}"),
+        }
+    }
+    fn ty(t: &crate::Type) -> String {
+        match t {
+            crate::Type::TVar(v) => tv(v),
+            crate::Type::TPar(name) => format!("'{name}"),
+            crate::Type::Dimension(d) => {
+                let fs: Vec<String> = d
+                    .factors()
+                    .iter()
+                    .map(|(f, e)| {
+                        let n = match f {
+                            DTypeFactor::TVar(v) => tv(v),
+                            DTypeFactor::TPar(name) => format!("'{name}"),
+                            DTypeFactor::BaseDimension(name) => name.to_string(),
+                        };
+                        if *e == crate::arithmetic::Exponent::from_integer(1) {
+                            n
+                        } else {
+                            format!("{n}^{e}")
+                        }
+                    })
+                    .collect();
+                if fs.is_empty() { "1".to_string() } else { fs.join("*") }
+            }
+            crate::Type::Boolean => "Bool".to_string(),
+            crate::Type::String => "String".to_string(),
+            crate::Type::DateTime => "DateTime".to_string(),
+            crate::Type::Fn(ps, r) => format!(
+                "Fn[({}) -> {}]",
+                ps.iter().map(ty).collect::<Vec<_>>().join(", "),
+                ty(r)
+            ),
+            crate::Type::Struct(info) => {
+                let mut s = info.name.to_string();
+                if let crate::typed_ast::StructKind::Instance(args) = &info.kind
+                    && !args.is_empty()
+                {
+                    s.push_str(&format!("<{}>", args.iter().map(ty).collect::<Vec<_>>().join(", ")));
+                }
+                s
+            }
+            crate::Type::List(e) => format!("List<{}>", ty(e)),
+        }
+    }
+    match scheme {
+        TypeScheme::Concrete(t) => ty(t),
+        TypeScheme::Quantified(_, qt) => {
+            let mut bounds: Vec<String> = qt
+                .bounds
+                .iter()
+                .map(|Bound::IsDim(t)| ty(t))
+                .filter(|s| s.starts_with('?') || s.starts_with('\''))
+                .collect();
+            bounds.sort();
+            bounds.dedup();
+            if bounds.is_empty() {
+                ty(&qt.inner)
+            } else {
+                format!("{} where {}: Dim", ty(&qt.inner), bounds.join(", "))
+            }
+        }
+    }
+}
+
+/// C15: `scheme_text` of the type the checker attached to a checked statement (expression statement: its
+/// type; `let` / `unit` definitions: the type of the defined name; `fn`: the function type).
+pub fn statement_scheme_text(stmt: &crate::Statement) -> Option<String> {
+    use crate::typed_ast::{DefineVariable, Statement};
+    match stmt {
+        Statement::Expression(e) => Some(scheme_text(&e.get_type_scheme())),
+        Statement::DefineVariable(DefineVariable { type_scheme, .. }) => Some(scheme_text(type_scheme)),
+        Statement::DefineFunction { fn_type, .. } => Some(scheme_text(fn_type)),
+        Statement::DefineBaseUnit { type_scheme, .. }
+        | Statement::DefineDerivedUnit { type_scheme, .. } => Some(scheme_text(type_scheme)),
+        _ => None,
+    }
+}
